@@ -80,12 +80,12 @@ func ReleaseQuestion(q *Question) {
 	if verifObjRelease(q) {
 		return
 	}
+	if verifObjEnabled() {
+		defer verifObjAfterRelease(q)
+	}
 	if q.Name != nil {
 		ReleaseName(q.Name)
 	}
 	*q = Question{}
-	if verifObjQuarantine(q) {
-		return
-	}
 	qsPool.Put(q)
 }
